@@ -88,7 +88,7 @@ Proof.
   destruct E as (E5 & E1).
   rewrite Hw, E5, Hg.
   destruct (cancel_send_ctx_some s1 c y ltac:(rewrite E1; exact Hy)) as (x & Hx).
-  rewrite Hx. cbn [wake set_ctx upd_ctxs ctxByID]. rewrite !stop_timer_byid. cbn [upd_byid ctxByID].
+  rewrite Hx. cbn [wake set_ctx upd_ctxs log_match ctxByID]. rewrite !stop_timer_byid. cbn [upd_byid ctxByID].
   rewrite cancel_send_byid, E5. apply aget_adel_same, Hk.
 Qed.
 
@@ -96,11 +96,11 @@ Qed.
    waited for, and then it is that request's reply *)
 Lemma recv_finish_current s t c id e b :
   In (ORet t (RMsg [] b)) (out (recv_finish true s t c id e)) -> ~ In (ORet t (RMsg [] b)) (out s) ->
-  exists x, aget c (ctxs s) = Some x /\ c_reqID x = id /\ c_repMsg x = Some b.
+  exists x i, aget c (ctxs s) = Some x /\ c_reqID x = id /\ c_repMsg x = Some (i, b).
 Proof.
   unfold recv_finish. destruct (aget c (ctxs s)) as [x|] eqn:Ex; [|intros H Hn; contradiction].
   destruct (N.eqb_spec (c_reqID x) id) as [Heq|Hne]; cbn [andb negb].
-  - destruct (c_repMsg x) as [m|] eqn:Er; cbn; intros [H|H] Hn; try contradiction; try discriminate.
+  - destruct (c_repMsg x) as [[i m]|] eqn:Er; cbn; intros [H|H] Hn; try contradiction; try discriminate.
     inversion H; subst. eauto.
   - cbn. intros [H|H] Hn; [discriminate|contradiction].
 Qed.
